@@ -44,7 +44,10 @@ def add_stage(m, sd):
                     templates[key] = rt
                     rt.decl0 = template_state(rt)
                 rt = templates[key]
-                st = ocp.stage(rt.st, t0=t0, T=T)
+                if d["horizon"] == "Tparam":
+                    st = ocp.stage(rt.st, t0=t0)          # the horizon stays the template's parameter
+                else:
+                    st = ocp.stage(rt.st, t0=t0, T=T)
                 r = P.Real()
                 r.d = d; r.ocp = ocp; r.st = st
                 r.sym = dict(rt.sym)
@@ -55,6 +58,8 @@ def add_stage(m, sd):
                 # a parameter value given to this clone only, after cloning
                 if d["pg"] == "scalar" and "pg" in d.get("pvals", {}):
                     st.set_value(r.sym["pg"], d["pvals"]["pg"])
+                if d["horizon"] == "Tparam" and "TT" in d.get("pvals", {}):
+                    st.set_value(r.sym["Tp"], d["pvals"]["TT"])
                 if sd.get("der_scale"):
                     st.set_der(r.sym["x"], P.rhs(P.CA, r.sym, d)["x"], scale=sd["der_scale"])
                 if sd.get("clear_cons"):
